@@ -291,4 +291,32 @@ CLAIMS.update({
     technique="Lean 4 proof (panic results excluded over all call answers; totality) + panic catcher and watchdog on every call"),
 })
 
+# further legs / generators of the tie, added after the seeded-change rounds 4 and 5 (DESIGN.md §10)
+MORE_TIE = {
+ "C02": " Also: writers resumed after a real short write (file-size limit inside the process, lifted again), round trips across "
+        "clear / remove_fully / directory removal followed by the same bytes again, system-call skeleton of the index append.",
+ "C03": " Also: a caller that carries on with a writer after a failed write (persistent-caller fault leg, header/body/trailer "
+        "chunkings), write futures dropped in flight (wwrite_cancel).",
+ "C04": " Also: rewrites of a key that change only the attachments (metadata / raw metadata / time of the same width).",
+ "C05": " Also: every hostile key written, looked up, removed, re-written, removed fully in both flavours; attachment-only "
+        "rewrites; buckets and directories that disappear and return between two lookups of one process.",
+ "C06": " Also: buckets laid out so that a multi-byte character straddles byte 64 of a line and every block size 4-64 KiB; "
+        "a lookup, damage of the same length that keeps the checksum field, the lookup again.",
+ "C07": " COLD START RACE: 8 processes make their first writes into one cold cache at the same instant, all must succeed. "
+        "Kill / observer sweeps go system-call class by class with strace attached after start-up (attach mode).",
+ "C09": " Also: full removal of an entry whose declared integrity names several algorithms while the same bytes are stored "
+        "separately under the weaker one; the hostile-key matrix.",
+ "C10": " Also: nine odd integrity texts x five bucket shapes, lookup vs listing item by item; block-boundary buckets; "
+        "listings repeated in one process after buckets were replaced by others of the same length.",
+ "C11": " Also: attachment-only rewrites of the same width, observed by both flavours and the listing after every step.",
+ "C13": " Also: persistent-caller leg (the caller continues after a failed write), resumed-writer leg (real short write), "
+        "deterministic flavour x operation coverage of the short-write leg, failing directory reads in clear (F26).",
+ "C15": " Also: a cache directory whose name is not UTF-8 (nothing may be created next to it).",
+ "C16": " Also: resumed-writer and persistent-caller legs (the digest must cover exactly the bytes stored).",
+ "C17": " Also: reference entries with multi-algorithm integrities, attachment-only rewrites, block-boundary buckets.",
+ "C19": " Also: relative targets linked from two different working directories within one process (link_to_cd).",
+}
+for _k, _v in MORE_TIE.items():
+    CLAIMS[_k]["text"] += _v
+
 PENDING = {}
